@@ -603,7 +603,14 @@ def getattr_(fr, base, attr, node):
                 key = (repo.class_attr_owner(ci, attr).qualname, attr)
                 cs = I.st.__dict__.setdefault("class_state", {})
                 if key not in cs:
-                    cs[key] = fresh(v)
+                    cs[key] = materialise(I, fresh(v))
+                return cs[key]
+            if isinstance(v, Rec) and v.cls is not None and repo.find_method(v.cls, "__init__") is not None and not any(d.startswith("dataclass") for d in v.cls.decorators) \
+                    and getattr(I, "materialise_records", False):
+                key = (repo.class_attr_owner(ci, attr).qualname, attr)
+                cs = I.st.__dict__.setdefault("class_state", {})
+                if key not in cs:
+                    cs[key] = materialise(I, v)
                 return cs[key]
             return v
         m = repo.find_method(ci, attr)
@@ -654,6 +661,21 @@ def getattr_(fr, base, attr, node):
     if base in (int, bytes, bytearray, str, dict, list):
         return AFn(base, attr)
     return I.opaque(f"attr {attr} of {type(base).__name__}")
+
+
+def materialise(I, v, depth=0):
+    """folded keyword-records of repo classes with a real __init__ (token tables ...) become objects built by that
+    constructor, so that code which copies and mutates them is analysed faithfully (opt-in: I.materialise_records)"""
+    if not getattr(I, "materialise_records", False) or depth > 6:
+        return v
+    if isinstance(v, Rec) and v.cls is not None and I.repo.find_method(v.cls, "__init__") is not None \
+            and not any(d.startswith("dataclass") for d in v.cls.decorators):
+        return I.construct(v.cls, [], {k: materialise(I, x, depth + 1) for k, x in v.fields.items()})
+    if isinstance(v, dict):
+        return {k: materialise(I, x, depth + 1) for k, x in v.items()}
+    if isinstance(v, list):
+        return [materialise(I, x, depth + 1) for x in v]
+    return v
 
 
 def find_enum_class(fr, m: EnumMember):
